@@ -1,5 +1,6 @@
 import Solvor.Sat.Lemmas
 import Solvor.Sat.Luby
+import Solvor.Sat.CdclInit
 /-!
 Sat: the property theorems of C01 and C02 (helper lemmas are in `Lemmas.lean` / `Luby.lean`).
 
@@ -13,32 +14,51 @@ Layers (DESIGN §4 C01/C02):
   1-UIP resolution (`resolve_sound`, `learn_chain_sound`), the Luby schedule as regenerated from
   the source (`luby_pos`, `luby_pow2`, `luby_fuel`, `luby_at_pow`, `luby_rec`).
 
-Not proved (stretch items [S] of the design).  They are about the executable CDCL mirror
-`Sat.Cdcl.solve` (Solvor/Sat/Cdcl.lean), which is tied to `solve_sat` by R_trace (same status, same
-assignments in the same order, same decision/propagation counters on every explored input) but about
-which nothing is proved for all inputs:
+Stretch items [S] of the design, about the executable CDCL mirror `Sat.Cdcl.solve`
+(Solvor/Sat/Cdcl.lean), which is tied to `solve_sat` by R_trace (same status, same assignments in
+the same order, same decision/propagation counters on every explored input):
+
+* proved: `cdcl_returns_models_partial` (below) – for every input without repeated literals inside a
+  clause and every parameter setting, every assignment the mirror returns passes `evalCnf` (total on
+  `1..n_vars`, every clause true, every assumption literal given its sign).  The proof carries two
+  invariants through every operation of the mirror – `assign`, the watch loop with its in-place
+  clause swaps and swap-with-last removals, the binary-implication lists, backjumps and restarts
+  (`unassignTo`), learned / blocking clause insertion, `reduceDb`, activity bumps, `pick_var`,
+  decisions and the set-up code: the two-watched-literal / trail invariant `Cdcl.Inv` (CdclInv.lean)
+  and the heap / learned-clause invariant `Cdcl.HInvX` (CdclH.lean: every unassigned variable has an
+  entry in the VSIDS heap, variable 0 is never assigned, watched learned clauses are in range).
 
 -- FULL STATEMENT (not proved): cdcl_returns_models
 --   theorem cdcl_returns_models (f : Cnf) (as : List Int) (P : Cdcl.Params)
---       (hf : WF f) (ha : ∀ a ∈ as, a ≠ 0) (hne : ∃ c ∈ f, c ≠ []) :
+--       (hf : WF f) (ha : ∀ a ∈ as, a ≠ 0) (hne : ∀ c ∈ f, c ≠ []) :
 --       let o := Cdcl.solve f as P
 --       (∀ m, o.solution = some m → evalCnf f as m = true) ∧
 --       (∀ ms, o.solutions = some ms →
 --          (∀ m ∈ ms, evalCnf f as m = true) ∧ pairwiseDistinct ms = true)
 --   (`hne` excludes the recorded finding: a formula of empty clauses only is answered `{}`.)
---   Needs the two-watched-literal invariant "after `propagate` returns -1 no clause is false under
---   the trail" and its preservation by `unassignTo`, `reduceDb` and the blocking-clause restart.
+--   Missing relative to `cdcl_returns_models_partial`: (ii) clauses with a repeated literal (`[1, 1, -2]`: the clause is then entered twice
+--   in one watch list and the invariant "each input clause occurs once per watch list" fails; the
+--   correspondence check covers such inputs by running them); (iii) pairwise distinctness (needs the
+--   same invariant for blocking clauses, including the re-indexing done by `reduceDb`); (iv) that the
+--   mirror's two give-up exits (`FUEL`, and `GUARD` = a post-condition of the imperative `analyze`
+--   fails: the asserted literal of the learned clause is on the conflict level, the backjump level
+--   is below it, no literal 0 in the learned clause, no variable 0 among the bumped ones) never fire – they return no assignment,
+--   so they do not affect the statement, but they are where the mirror could part from `solve_sat`.
+* proved: `cdcl_infeasible_sound_partial` (below) – for the same inputs the mirror answers INFEASIBLE only
+  for unsatisfiable clauses + assumptions.  The mirror is *certifying*: it checks every learned clause
+  against the logged resolution chain (`chainOk`, sound by `learn_chain_sound`) and, before INFEASIBLE,
+  a unit-propagation refutation of input + assumptions + pure literals + learned clauses (`certify`,
+  sound by `upRefutes_sound` and the pure-literal rule); a failed check ends the run with `GUARD`.
 -- FULL STATEMENT (not proved): cdcl_infeasible_sound
 --   theorem cdcl_infeasible_sound (f as P) (hf : WF f) (ha : ∀ a ∈ as, a ≠ 0) :
 --       (Cdcl.solve f as P).status = .INFEASIBLE → ¬ ∃ σ, Models σ f as
---   Needs: every clause in `learned` is entailed by `f` plus the earlier blocking clauses (the
---   per-step fact is `learn_chain_sound`; the per-input check is `entailsB_iff`), and every level-0
---   literal is entailed by `f`, the assumptions and – in single-solution mode – the pure-literal choice.
+--   Missing relative to `cdcl_infeasible_sound_partial`: clauses with a repeated literal; and that the
+--   certificate checks never fail (then the mirror's INFEASIBLE coincides with `solve_sat`'s).
 -- FULL STATEMENT (not proved): cdcl_fuel_suffices
 --   theorem cdcl_fuel_suffices (f as P) : (Cdcl.solve f as P).status ≠ .UNBOUNDED
---   (`UNBOUNDED` is how the mirror reports "fuel `(maxConflicts + solutionLimit + 2) * (nVars + 2) * 2 + 64`
---   exhausted"; on every explored input the driver reports the loop iterations actually used against
---   that bound – at most 14 % so far – as a measured fact.)
+--   (`UNBOUNDED` is how the mirror reports "fuel exhausted" / "sanity check failed"; on every explored
+--   input the driver reports the loop iterations actually used against the bound
+--   `(maxConflicts + solutionLimit + 2) * (nVars + 2) * 2 + 64` – at most 33 % so far – as a measured fact.)
 -/
 namespace Solvor.Sat
 
@@ -175,7 +195,106 @@ theorem entailsB_iff (f : Cnf) (c : Clause) (hf : WF f) (hc : ∀ l ∈ c, l ≠
 
 example : entailsB [[1, 2], [-1, 3], [-2, 3]] [3] = true ∧ entailsB [[1, 2], [-1, 3]] [3] = false := by decide
 
+/-- [S], partial (C01): whatever the parameters, every assignment returned by the CDCL mirror is
+accepted by the checker `evalCnf` – it has a value for every variable `1..n_vars`, makes every clause
+true and gives every assumption literal its sign – for every input whose clauses are non-empty, free
+of the literal 0 and of repeated literals, with non-zero assumptions. -/
+theorem cdcl_returns_models_partial (f : Cnf) (as : List Int) (P : Cdcl.Params)
+    (hf : WF f) (hnd : ∀ c ∈ f, c.Nodup) (hne : ∀ c ∈ f, c ≠ []) (ha : ∀ a ∈ as, a ≠ 0) :
+    ∀ m, ((Cdcl.solve f as P).solution = some m ∨ ∃ ms, (Cdcl.solve f as P).solutions = some ms ∧ m ∈ ms) →
+      evalCnf f as m = true := by
+  intro m hm
+  have hg := Cdcl.solve_good f as P hnd hf hne ha
+  have hgood : Cdcl.GoodSol f as m := by
+    rcases hm with h | ⟨ms, h1, h2⟩
+    · exact hg.1 m h
+    · exact hg.2.1 ms h1 m h2
+  obtain ⟨g1, g2, g3⟩ := hgood
+  have tot : ∀ l : Int, l ≠ 0 → l.natAbs ≤ Cdcl.countVars f as → (m.lookup l.natAbs).isSome = true :=
+    fun l h0 hr => g3 l.natAbs (by omega) hr
+  have ht : totalOn m f as = true := by
+    unfold totalOn
+    simp only [Bool.and_eq_true, List.all_eq_true]
+    exact ⟨fun c hc l hl => tot l (hf c hc l hl) (Cdcl.countVars_clause f as c hc l hl),
+      fun a ha' => tot a (ha a ha') (Cdcl.countVars_asm f as a ha')⟩
+  unfold evalCnf
+  simp only [ht, Bool.true_and, Bool.and_eq_true, List.all_eq_true, List.any_eq_true, litHolds_iff]
+  refine ⟨fun c hc => ?_, fun a ha' => g2 a ha'⟩
+  obtain ⟨l, hl, hne'⟩ := g1 c hc
+  refine ⟨l, hl, ?_⟩
+  obtain ⟨b, hb⟩ := Option.isSome_iff_exists.1 (tot l (hf c hc l hl) (Cdcl.countVars_clause f as c hc l hl))
+  rw [hb] at hne' ⊢
+  cases b <;> cases hd : decide (0 < l) <;> simp_all
+
+/- the hypotheses are met by ordinary inputs (the mirror itself cannot be evaluated by `decide`: VSIDS
+activities are `Float`s, opaque to the kernel; on this input the compiled driver prints the two
+assignments `{1:F,2:F,3:T}`, `{1:T,2:F,3:F}` for `solution_limit = 10`, as `solve_sat` does) -/
+example : WF [[1, 2, 3], [-1, -2], [-1, -3], [-2, -3], [1, -2, 3]] ∧
+    (∀ c ∈ [[1, 2, 3], [-1, -2], [-1, -3], [-2, -3], [1, -2, 3]], c.Nodup) ∧
+    (∀ c ∈ [[1, 2, 3], [-1, -2], [-1, -3], [-2, -3], [1, -2, 3]], c ≠ ([] : List Int)) ∧ (∀ a ∈ [(-2 : Int)], a ≠ 0) :=
+  ⟨wfB_iff.1 (by decide), by decide, by decide, by decide⟩
+
 /-! ## C02 -/
+
+/-- T-spec (C02): the refutation checker the CDCL mirror runs before it answers INFEASIBLE – unit
+propagation from scratch, to a fixpoint – only accepts clause sets without a model. -/
+theorem upRefutes_sound (n : Nat) (cs : List Clause) (h : upRefutes n cs = true) : ¬ ∃ σ, cnfTrue σ cs = true :=
+  upRefutes_unsat n cs h
+
+example : upRefutes 3 [[1, 2], [-1, 2], [-2, 3], [-3]] = true ∧ upRefutes 3 [[1, 2], [-1, -2]] = false := by decide
+
+/-- [S], partial (C02): whatever the parameters, the CDCL mirror answers INFEASIBLE only when clauses
+and assumptions have no common model – for every input free of the literal 0 and of repeated literals
+inside a clause, with non-zero assumptions.  (The mirror certifies the answer: each learned clause is
+checked to come out of the logged resolution chain – `learn_chain_sound` – and before INFEASIBLE is
+reported unit propagation from scratch must refute input + assumptions + pure literals + learned
+clauses – `upRefutes_sound` and the pure-literal rule; if a check failed the mirror would give up
+with status `UNBOUNDED`, which the correspondence check treats as a failure of the mirror.) -/
+theorem cdcl_infeasible_sound_partial (f : Cnf) (as : List Int) (P : Cdcl.Params)
+    (hf : WF f) (hnd : ∀ c ∈ f, c.Nodup) (ha : ∀ a ∈ as, a ≠ 0) :
+    (Cdcl.solve f as P).status = .INFEASIBLE → ¬ ∃ σ, Models σ f as := by
+  intro hs
+  by_cases hne : ∀ c ∈ f, c ≠ []
+  · exact (Cdcl.solve_good f as P hnd hf hne ha).2.2.1 hs
+  · rintro ⟨σ, hσ⟩
+    apply hne
+    intro c hc he
+    subst he
+    obtain ⟨l, hl, _⟩ := hσ.1 [] hc
+    cases hl
+
+example : WF [[1, 2], [-1, 2], [1, -2], [-1, -2]] ∧ (∀ c ∈ [[1, 2], [-1, 2], [1, -2], [-1, -2]], c.Nodup) :=
+  ⟨wfB_iff.1 (by decide), by decide⟩
+
+/-- [S], partial (C02): the mirror's verdicts, for the same inputs and every parameter setting.  The
+status is OPTIMAL, INFEASIBLE, MAX_ITER or the mirror's own give-up; OPTIMAL comes with an assignment
+accepted by `evalCnf`; MAX_ITER is only reported when `conflicts ≥ max_conflicts` or
+`restarts ≥ max_restarts`.  Hence, for a satisfiable input, unless a budget is exhausted (or the mirror
+gives up) the answer is OPTIMAL with a model – the clause "answers with a model whenever one exists and
+the budgets are not exhausted". -/
+theorem cdcl_verdicts_partial (f : Cnf) (as : List Int) (P : Cdcl.Params)
+    (hf : WF f) (hnd : ∀ c ∈ f, c.Nodup) (hne : ∀ c ∈ f, c ≠ []) (ha : ∀ a ∈ as, a ≠ 0) :
+    ((Cdcl.solve f as P).status = .OPTIMAL →
+        ∃ m, (Cdcl.solve f as P).solution = some m ∧ evalCnf f as m = true) ∧
+    ((Cdcl.solve f as P).status = .MAX_ITER →
+        P.maxConflicts ≤ (Cdcl.solve f as P).conflicts ∨ P.maxRestarts ≤ (Cdcl.solve f as P).restarts) ∧
+    ((∃ σ, Models σ f as) → (Cdcl.solve f as P).status ≠ .UNBOUNDED →
+        (Cdcl.solve f as P).conflicts < P.maxConflicts → (Cdcl.solve f as P).restarts < P.maxRestarts →
+        ∃ m, (Cdcl.solve f as P).status = .OPTIMAL ∧ (Cdcl.solve f as P).solution = some m ∧ evalCnf f as m = true) := by
+  obtain ⟨_, _, g3, g4, g5, g6⟩ := Cdcl.solve_good f as P hnd hf hne ha
+  have hopt : (Cdcl.solve f as P).status = .OPTIMAL →
+      ∃ m, (Cdcl.solve f as P).solution = some m ∧ evalCnf f as m = true := by
+    intro ho
+    obtain ⟨m, hm⟩ := Option.isSome_iff_exists.1 (g4 ho)
+    exact ⟨m, hm, cdcl_returns_models_partial f as P hf hnd hne ha m (Or.inl hm)⟩
+  refine ⟨hopt, g5, ?_⟩
+  intro hsat hnu hc hr
+  rcases g6 with h | h | h | h
+  · obtain ⟨m, a, b⟩ := hopt h; exact ⟨m, h, a, b⟩
+  · exact absurd hsat (g3 h)
+  · rcases g5 h with h' | h' <;> omega
+  · exact absurd h hnu
+
 
 /-- T-model (C02): the reference DPLL answers "unsatisfiable" exactly when formula and assumptions
 have no common model; `solve_sat`'s INFEASIBLE is compared against this verdict on every input. -/
